@@ -636,22 +636,15 @@ structure SelRec where
   nsUsed : NsMap
 deriving DecidableEq, Repr
 
-/-- the keys `_getUsedUris` (selector.py:625-637) puts into its set, as `Uri` values.
-`A or B and C and D` parses as `A or (B and C and D)`: for a `*-selector` item `val[0]` is taken even
-when `val` is a plain string (an unprefixed attribute name) — its first character. -/
+/-- `_getUsedUris` (selector.py:625-637): the URI strings of the `*-selector` / `universal` items whose value is a
+`(namespaceURI, name)` pair with a real URI (not `None`, not the any-namespace marker) -/
 def usedUris : List Item → M (List Uri)
   | [] => pure []
   | it :: r => do
     let rest ← usedUris r
-    if endsWith it.typ sfxSelector then
+    if endsWith it.typ sfxSelector || it.typ == tyUniversal then
       match it.val with
-      | .ns u _ => pure (u :: rest)
-      | .str (ch :: _) => pure (.uri [ch] :: rest)
-      | .str [] => throw .indexError
-      | .comment _ => throw .typeError
-    else if it.typ == tyUniversal then
-      match it.val with
-      | .ns u _ => pure (u :: rest)      -- `val[0] not in (None, '*')`: adding None is harmless, kept out below
+      | .ns (.uri u) _ => pure (.uri u :: rest)
       | _ => pure rest
     else pure rest
 
@@ -732,7 +725,7 @@ def outAppend (out : List Cps) (val : Cps) (isComment : Bool) (typ : Cps) (keepS
     -- PRE :229-257
     let go (out : List Cps) (val : Cps) : List Cps :=
       -- APPEND :268-273
-      let out := if endsWith val [32] then removeLastIfS out else out
+      let out := if endsWith val [32] && !(endsWith val [92, 32]) then removeLastIfS out else out   -- :271
       let out := val :: out
       -- POST :276-307 (space=False, alwaysS=False)
       if isSub val sCombChars then
